@@ -150,6 +150,25 @@ where
     Ok(())
 }
 
+/// A clone taken after k steps must continue exactly like the original.
+pub fn clone_consistency<T, I>(what: &str, make: impl Fn() -> I, len: usize) -> Verdict
+where
+    T: PartialEq + Debug,
+    I: Iterator<Item = T> + Clone,
+{
+    for k in [0, 1, len / 2, len] {
+        let mut it = make();
+        for _ in 0..k {
+            let _ = it.next();
+        }
+        let c = it.clone();
+        let a: Vec<T> = it.collect();
+        let b: Vec<T> = c.collect();
+        ensure!(a == b, "{what}: a clone taken after {k} steps continues with {b:?}, the original with {a:?}");
+    }
+    Ok(())
+}
+
 pub fn check_queries<D: Queries>(g: &D, name: &str, m: &UModel, walks: &[Vec<usize>]) -> Verdict {
     let before = g.clone();
     let vs = m.vertices();
